@@ -329,6 +329,7 @@ class RaceWorld:
         from esrally.driver import driver
 
         self.scn = scn
+        self.fault_seed = seed
         self.rnd = random.Random(seed)
         self.clock = VirtualClock()
         self.driver_mod = driver
@@ -621,7 +622,8 @@ class RaceWorld:
             if state["armed"]:
                 state["armed"] = False
                 world.fault_fired = True
-                raise IOError("verif: metrics store unavailable")
+                # every 4th race: a failure that is not an Exception (a plugin or library calling sys.exit)
+                raise (SystemExit if world.fault_seed % 4 == 3 else IOError)("verif: metrics store unavailable")
             return orig(*a, **k)
 
         store.put_value_cluster_level = failing
